@@ -328,13 +328,14 @@ Proof.
   destruct (authorize a (dest_value (f_dest fr)) r) as [ok alog]. cbn [fst snd] in *.
   destruct ok; cbn [negb snd]; [|exact HA].
   destruct (f_dest fr) as [u|].
-  - destruct (lookup u us) as [st|]; [|exact HA].
-    pose proof (ref_exec_log H fc u st r) as L. unfold log_of in L.
-    destruct (ref_exec H fc u st r) as [[st' pdu] lg]. cbn [snd] in *. subst lg.
-    rewrite auth_events_app, HA. rewrite (no_auth_auth_events (if is_write r then write_call u r else read_calls H u st r)); [apply app_nil_r|].
+  - destruct (lookup u (u_map us)) as [h|]; [|exact HA].
+    pose proof (ref_exec_log H fc h (u_store us h) r) as L. unfold log_of in L.
+    destruct (ref_exec H fc h (u_store us h) r) as [[st' pdu] lg]. cbn [snd] in *. subst lg.
+    rewrite auth_events_app, HA. rewrite (no_auth_auth_events (if is_write r then write_call h r else read_calls H h (u_store us h) r)); [apply app_nil_r|].
     destruct (is_write r); [apply write_call_no_auth|apply read_calls_no_auth].
   - destruct (is_write r); [|exact HA].
-    pose proof (apply_all_log H us r) as L. destruct (apply_all H us r) as [units' lg]. cbn [snd] in *. subst lg.
+    pose proof (apply_all_log H r (u_map us) (u_store us)) as L.
+    destruct (apply_all H (u_map us) (u_store us) r) as [g' lg]. cbn [snd] in *. subst lg.
     rewrite auth_events_app, HA. rewrite no_auth_auth_events; [apply app_nil_r|apply flat_map_no_auth].
 Qed.
 
@@ -410,6 +411,120 @@ Proof.
   split; [exact A|]. split; [exact C|]. rewrite app_nil_r. split.
   - intros id Hal. apply in_map. now apply D.
   - now apply in_map.
+Qed.
+
+(* ------------------------------------------------------------------ the "if" direction: admitted, valid peers do get served *)
+Lemma find_set_phase id ph cs c : find_conn id cs = Some c ->
+  find_conn id (set_phase id ph cs) = Some {| c_id := c_id c; c_addr := c_addr c; c_peer := c_peer c; c_phase := ph |}.
+Proof.
+  induction cs as [|x r IH]; cbn [find_conn set_phase]; [discriminate|].
+  destruct (N.eqb_spec (c_id x) id) as [E|E].
+  - intros X; inversion X; subst. cbn [find_conn c_id]. now rewrite N.eqb_refl.
+  - intros X. cbn [find_conn]. destruct (N.eqb_spec (c_id x) id); [contradiction|]. now apply IH.
+Qed.
+
+Lemma find_conn_app_new id cs c : (forall x, In x cs -> c_id x <> id) -> c_id c = id -> find_conn id (cs ++ [c]) = Some c.
+Proof.
+  intros Hno Hid. induction cs as [|x r IH]; cbn [app find_conn].
+  - subst. now rewrite N.eqb_refl.
+  - destruct (N.eqb_spec (c_id x) id) as [E|E]; [exfalso; apply (Hno x); [now left|exact E]|].
+    apply IH. intros y Hy. apply Hno. now right.
+Qed.
+
+(* connection ids are the tracker's ids: always below the tracker's next id *)
+Definition ids_below (f : front (St := St)) : Prop := forall c, In c (conns f) -> c_id c < next_id (trk (srv f)).
+
+Lemma tracker_next_id_mono s evs s' o : Tracker.run s evs = Some (s', o) -> next_id (trk s) <= next_id (trk s').
+Proof. intros R. rewrite (run_next_id _ _ _ _ R). lia. Qed.
+
+Lemma set_phase_ids id ph cs c' : In c' (set_phase id ph cs) -> exists c0, In c0 cs /\ c_id c' = c_id c0.
+Proof.
+  intros Hin. destruct (set_phase_in _ _ _ _ Hin) as [Hi|(c0 & Ef & Eid & _)]; [now exists c'|].
+  destruct (find_conn_in _ _ _ Ef) as [Hc0 _]. now exists c0.
+Qed.
+
+Lemma step_ids_below f e f' o : ids_below f -> fstep f e = Some (f', o) -> ids_below f'.
+Proof.
+  intros Hinv Hs. destruct (fstep_projects _ _ _ _ Hs) as (tos & R). pose proof (tracker_next_id_mono _ _ _ _ R) as Hmono.
+  unfold ids_below in *. unfold ServerFront.fstep in Hs. destruct e as [addr pk|i|i fr|i|i| | |].
+  - destruct (track f _) as [[s' o']|] eqn:E; [|discriminate]. destruct (track_some _ _ _ _ E) as (t1 & Er & _).
+    destruct (existsb is_call_handle (on_accept accept_arm flt addr) && running (srv f)) eqn:Eok; inversion Hs; subst; cbn [conns srv] in *.
+    + intros c Hc. apply in_app_or in Hc. destruct Hc as [Hc|[Hc|[]]]; [specialize (Hinv c Hc); lia|]. subst c. cbn [c_id].
+      apply andb_prop in Eok. destruct Eok as [Eh Erun]. rewrite Eh in Er. cbn [Tracker.run] in Er.
+      destruct (Tracker.step (srv f) (Accept true)) as [[s1 u1]|] eqn:Es; [|discriminate]. inversion Er; subst.
+      rewrite (step_next_id _ _ _ _ Es), Erun. lia.
+    + intros c Hc. specialize (Hinv c Hc). lia.
+  - destruct (find_conn i (conns f)) as [c0|]; [|inversion Hs; subst; exact Hinv].
+    destruct (c_phase c0); try (inversion Hs; subst; exact Hinv).
+    destruct (c_peer c0); try (inversion Hs; subst; exact Hinv).
+    + destruct (alive (srv f) i); [|inversion Hs; subst; exact Hinv].
+      destruct (establish PeerPlain).
+      * inversion Hs; subst; cbn [conns srv] in *. intros c Hc. destruct (set_phase_ids _ _ _ _ Hc) as (c1 & H1 & ->). now apply Hinv.
+      * destruct (track f _) as [[s' o']|]; [|discriminate]. inversion Hs; subst; cbn [conns srv] in *.
+        intros c Hc. destruct (set_phase_ids _ _ _ _ Hc) as (c1 & H1 & ->). specialize (Hinv c1 H1). lia.
+    + destruct (alive (srv f) i); [|inversion Hs; subst; exact Hinv].
+      destruct (establish (PeerTls p)).
+      * inversion Hs; subst; cbn [conns srv] in *. intros c Hc. destruct (set_phase_ids _ _ _ _ Hc) as (c1 & H1 & ->). now apply Hinv.
+      * destruct (track f _) as [[s' o']|]; [|discriminate]. inversion Hs; subst; cbn [conns srv] in *.
+        intros c Hc. destruct (set_phase_ids _ _ _ _ Hc) as (c1 & H1 & ->). specialize (Hinv c1 H1). lia.
+  - destruct (find_conn i (conns f)) as [c0|]; [|inversion Hs; subst; exact Hinv].
+    destruct (c_phase c0); try (inversion Hs; subst; exact Hinv).
+    destruct (alive (srv f) i); [|inversion Hs; subst; exact Hinv].
+    destruct (handle_frame H LTcp a (units f) fr) as [[rp units'] lg]. destruct rp.
+    + inversion Hs; subst; cbn [conns srv] in *. exact Hinv.
+    + destruct (track f _) as [[s' o']|]; [|discriminate]. inversion Hs; subst; cbn [conns srv] in *.
+      intros c Hc. destruct (set_phase_ids _ _ _ _ Hc) as (c1 & H1 & ->). specialize (Hinv c1 H1). lia.
+    + destruct (track f _) as [[s' o']|]; [|discriminate]. inversion Hs; subst; cbn [conns srv] in *.
+      intros c Hc. destruct (set_phase_ids _ _ _ _ Hc) as (c1 & H1 & ->). specialize (Hinv c1 H1). lia.
+  - destruct (track f _) as [[s' o']|]; [|discriminate]. inversion Hs; subst; cbn [conns srv] in *.
+    intros c Hc. destruct (set_phase_ids _ _ _ _ Hc) as (c1 & H1 & ->). specialize (Hinv c1 H1). lia.
+  - destruct (track f _) as [[s' o']|]; [|discriminate]. inversion Hs; subst; cbn [conns srv] in *. intros c Hc. specialize (Hinv c Hc). lia.
+  - destruct (track f _) as [[s' o']|]; [|discriminate]. inversion Hs; subst; cbn [conns srv] in *. intros c Hc. specialize (Hinv c Hc). lia.
+  - destruct (track f _) as [[s' o']|]; [|discriminate]. inversion Hs; subst; cbn [conns srv] in *. intros c Hc. specialize (Hinv c Hc). lia.
+  - destruct (track f _) as [[s' o']|]; [|discriminate]. inversion Hs; subst; cbn [conns srv] in *. intros c Hc. specialize (Hinv c Hc). lia.
+Qed.
+
+Lemma frun_ids_below evs : forall f f' o, ids_below f -> frun f evs = Some (f', o) -> ids_below f'.
+Proof.
+  induction evs as [|e r IH]; intros f f' o Hinv Hr; cbn [ServerFront.frun] in Hr; [inversion Hr; subst; exact Hinv|].
+  destruct (fstep f e) as [[f1 o1]|] eqn:E1; [|discriminate].
+  destruct (frun f1 r) as [[f2 o2]|] eqn:E2; [|discriminate]. inversion Hr; subst.
+  exact (IH _ _ _ (step_ids_below _ _ _ _ Hinv E1) E2).
+Qed.
+
+(* a connection from an admitted address arriving while the server runs gets a session of its own
+   (also at the limit), waiting in the handshake (TLS) or served at once (plain TCP) *)
+Lemma front_accept_admitted m us evs f o addr pk f' o' :
+  frun (finit m us) evs = Some (f, o) -> running (srv f) = true -> admits flt addr ->
+  fstep f (FAccept addr pk) = Some (f', o') ->
+  let id := next_id (trk (srv f)) in
+  alive (srv f') id = true /\
+  find_conn id (conns f') = Some {| c_id := id; c_addr := addr; c_peer := pk;
+                                    c_phase := match tr with PlainTcp => Serving NoAuth | TlsTransport _ _ _ => Handshaking end |}.
+Proof.
+  intros Hr Hrun Hadm Hs. cbv zeta.
+  assert (Hok : existsb is_call_handle (on_accept accept_arm flt addr) = true).
+  { apply existsb_exists. exists CallHandle. split; [now apply gate_admitted_is_handled|reflexivity]. }
+  assert (Hbelow : ids_below f) by (apply (frun_ids_below evs (finit m us) f o); [intros c []|exact Hr]).
+  destruct (frun_projects _ _ _ _ Hr) as (tevs & tos & R). cbn [finit srv] in R.
+  unfold ServerFront.fstep in Hs. rewrite Hok, Hrun in Hs. cbn [andb] in Hs.
+  destruct (track f _) as [[s' t']|] eqn:E; [|discriminate]. destruct (track_some _ _ _ _ E) as (t1 & Er & _).
+  inversion Hs; subst. cbn [srv conns]. cbn [Tracker.run] in Er.
+  destruct (Tracker.step (srv f) (Accept true)) as [[s1 u1]|] eqn:Es; [|discriminate]. inversion Er; subst.
+  destruct (accept_spawns m tevs (srv f) tos s' u1 R Hrun Es) as (_ & Hal & _). split; [exact Hal|].
+  apply find_conn_app_new; [|reflexivity]. intros x Hx E2. specialize (Hbelow x Hx). lia.
+Qed.
+
+(* when the handshake of such a connection completes while it is still a running session, and the C09
+   admission Spec accepts the peer, the connection is served from then on with exactly that authorization *)
+Lemma front_handshake_establishes f id c a f' o :
+  find_conn id (conns f) = Some c -> c_phase c = Handshaking -> c_peer c <> PeerSilent -> alive (srv f) id = true ->
+  establish (c_peer c) = Some a -> fstep f (FHandshakeDone id) = Some (f', o) ->
+  srv f' = srv f /\ find_conn id (conns f') = Some {| c_id := c_id c; c_addr := c_addr c; c_peer := c_peer c; c_phase := Serving a |}.
+Proof.
+  intros Ef Eph Hns Hal Hest Hs. unfold ServerFront.fstep in Hs. rewrite Ef, Eph, Hal in Hs.
+  destruct (c_peer c) eqn:Ep; [| contradiction |]; rewrite Hest in Hs; inversion Hs; subst; cbn [srv conns];
+    (split; [reflexivity|]); rewrite (find_set_phase _ _ _ _ Ef), Ep; reflexivity.
 Qed.
 
 End Front.
